@@ -229,8 +229,10 @@ def units(props, tier='quick'):
         it._mp = labels(it, 'a')
         close_zero_flag(it)
         return [list(it._mp)]
+    # the shared helper keeps the convention described in label_stack_enc(evpn=True) (a zero last label without the
+    # bottom-of-stack bit): its labeled-unicast caller sets the bit itself, its EVPN callers round-trip either way
     U('NLRI.construct_mpls_label_stack', N + 'NLRI.construct_mpls_label_stack', ls_c_args,
-      lambda it, lbls: ('ret', label_stack_enc(it._mp)))
+      lambda it, lbls: ('ret', label_stack_enc(it._mp, evpn=True)))
 
     U('MPLSVPN.construct_mpls_label_stack', N + 'mpls_vpn.MPLSVPN.construct_mpls_label_stack', ls_c_args,
       lambda it, lbls: ('ret', label_stack_enc(it._mp)))
@@ -406,7 +408,6 @@ def units(props, tier='quick'):
             rd = rd_value(it, 'r0', kind=0)
             lb = one_label(it, 'r0')
             close_zero_flag(it)
-            it.p.assume(lb[0].t != 0)
             txt = text4 if w == 4 else text6
             d.update(afi=1 if w == 4 else 2, safi=128, nh_text={'rd': '0:0', 'str': (STR.ip4 if w == 4 else STR.ip6)(nh)},
                      nh_bin=SP.cat(b'\x00' * 8, octets_bytes(nh.octs, w)),
@@ -431,7 +432,6 @@ def units(props, tier='quick'):
             a, l = canonical_prefix(it, 'r0', w, plen=24 if w == 4 else 64)
             lb = one_label(it, 'r0')
             close_zero_flag(it)
-            it.p.assume(lb[0].t != 0)
             txt = text4 if w == 4 else text6
             d.update(afi=1 if w == 4 else 2, safi=4, nh_text=(STR.ip4 if w == 4 else STR.ip6)(nh), nh_bin=octets_bytes(nh.octs, w),
                      nlri=[{'prefix': txt(a, l), 'label': list(lb)}],
